@@ -5,6 +5,7 @@ import (
 	"fmt"
 	"os"
 	"path/filepath"
+	"sort"
 	"strings"
 	"testing"
 	"unicode/utf8"
@@ -188,6 +189,46 @@ func checkInverse(b *sourcebundle.Bundle, root string, label any) error {
 					return fmt.Errorf("SourceForLocalPath(%q) = %s, which translates back to %q instead of %q", sp, src, back, filepath.Clean(want))
 				}
 			}
+		}
+	}
+	// the same relative path means another file from another working directory - also for a Bundle that has
+	// answered before
+	var dirList []string
+	for d := range dirs {
+		if utf8.ValidString(d) {
+			dirList = append(dirList, d)
+		}
+	}
+	sort.Strings(dirList)
+	if phys, err := filepath.EvalSymlinks(root); err != nil || phys != root {
+		// a working directory has no spelling: below a root named through a symlink, relative paths are
+		// made absolute through the physical directory, which the bundle does not treat as its root
+		dirList = nil
+	}
+	for i, d := range dirList {
+		if fi, err := os.Stat(d); err != nil || !fi.IsDir() {
+			if os.MkdirAll(d, 0755) != nil {
+				continue
+			}
+		}
+		if os.Chdir(d) != nil {
+			continue
+		}
+		for round := 0; round < 2; round++ {
+			src, err := b.SourceForLocalPath("main.tf")
+			if err != nil {
+				return fmt.Errorf("SourceForLocalPath(\"main.tf\") from the working directory %q (a package directory) fails: %v", d, err)
+			}
+			back, err := b.LocalPathForSource(src)
+			if err != nil || back != filepath.Join(d, "main.tf") {
+				return fmt.Errorf("SourceForLocalPath(\"main.tf\") from the working directory %q (package directory number %d asked) = %s, which translates back to %q (%v)", d, i+1, src, back, err)
+			}
+		}
+	}
+	os.Chdir(filepath.Dir(root))
+	if len(dirList) > 0 {
+		if src, err := b.SourceForLocalPath("main.tf"); err == nil {
+			return fmt.Errorf("SourceForLocalPath(\"main.tf\") from a working directory outside the bundle = %s", src)
 		}
 	}
 	// paths that do not belong to any package
